@@ -891,7 +891,7 @@ func (s *State) evalIdentifier(node *ast.Identifier) object.Object {
 }
 
 func (s *State) evalIfExpression(ie *ast.IfExpression) object.Object {
-	condition := s.evalInternal(ie.Condition)
+	condition := object.Value(s.evalInternal(ie.Condition)) // deref: a boolean from an outer scope is a boolean.
 	switch condition {
 	case object.TRUE:
 		if log.LogVerbose() {
@@ -1060,6 +1060,9 @@ func (s *State) evalForSpecialForms(fe *ast.ForExpression) (object.Object, bool)
 	}
 	// Evaluate:
 	v := s.evalInternal(ie.Right)
+	if _, isReg := v.(*object.Register); !isReg {
+		v = object.Value(v) // deref: a list, map, string or count held by an outer variable.
+	}
 	switch v.Type() {
 	case object.REGISTER:
 		return s.evalForIntegerReg(fe, nil, v.(*object.Register).Int64(), name, loopReg), true
@@ -1118,6 +1121,9 @@ func (s *State) evalForExpression(fe *ast.ForExpression) object.Object {
 	lastEval = object.NULL
 	for {
 		condition := s.evalInternal(fe.Condition)
+		if _, isReg := condition.(*object.Register); !isReg {
+			condition = object.Value(condition) // deref: a boolean or count held by an outer variable.
+		}
 		switch condition {
 		case object.TRUE:
 			if log.LogVerbose() {
